@@ -324,7 +324,7 @@ func CrashCase(c *core.Case, plan CrashPlan, p int) {
 		run.Nontrivial(fmt.Sprintf("%s/%d", plan.Name, p))
 		run.Count("recovered_and_caught_up", 1)
 	}
-	if c.I%40 == 1 {
+	if run.Counter("restarts") <= 2 {
 		run.Sample(map[string]interface{}{"plan": plan.Name, "crash_point": p, "window": window, "committed_before_crash": committedAtP, "final": net.Heights()})
 	}
 }
